@@ -216,6 +216,7 @@ Definition verdict_call (path : string) (route rk ri : Z) (args : list (Z * Z)) 
 (* ------------------------------------------------------- source text stream *)
 
 Definition pinned_sources : list (Z * list Z) := [
+  (15, [110; 101; 119; 32; 40; 77; 97; 116; 104; 46; 109; 97; 120; 46; 98; 105; 110; 100; 40; 110; 117; 108; 108; 41; 41; 40; 49; 41]) (* new (Math.max.bind(null))(1) *);
   (12, [43; 83; 116; 114; 105; 110; 103; 46; 102; 114; 111; 109; 67; 104; 97; 114; 67; 111; 100; 101; 40; 52; 57; 41]) (* +String.fromCharCode(49) *);
   (9, [116; 104; 114; 111; 119; 32; 123; 116; 111; 83; 116; 114; 105; 110; 103; 58; 32; 102; 117; 110; 99; 116; 105; 111; 110; 40; 41; 123; 32; 116; 104; 114; 111; 119; 32; 49; 32; 125; 125]) (* throw {toString: function(){ throw 1 }} *);
   (10, [102; 117; 110; 99; 116; 105; 111; 110; 32; 102; 40; 41; 123; 97; 58; 32; 105; 102; 40; 49; 41; 32; 98; 114; 101; 97; 107; 32; 97; 59; 32; 114; 101; 116; 117; 114; 110; 32; 55; 125; 32; 116; 121; 112; 101; 111; 102; 32; 102; 40; 41]) (* function f(){a: if(1) break a; return 7} typeof f() *);
@@ -265,18 +266,46 @@ Definition code_of (r : api_result) : Z :=
   match r with ARet => 0 | AErr c => c | APanic _ => 9 end.
 
 (* one step of a history on one runtime: the limit is the state.
-   (0, L) SetStackDepthLimit(L); (1, d) d nested script calls; (2, d) the same
-   inside try/catch; (3, d) below a native frame and its callback; (4, d) a host
-   function at the bottom reads the depth.  Every step also reads the depth
-   at rest afterwards (-1: no scope). *)
+   (0, L) SetStackDepthLimit(L); every other step (k, d) is a recursion of d
+   cycles in some shape, observed in some mode.
+     k = 1  d nested script calls                         (mode run)
+     k = 2  the same inside try/catch                     (mode caught)
+     k = 3  below a native frame and its callback         (mode run, d+2 scopes)
+     k = 4  a host function at the bottom reads the depth (mode probe)
+     k = 5 + 3*s + m: shape s, mode m (0 run, 1 caught, 2 probe), where every
+       cycle of the recursion passes through
+       s = 0  f -> indirect eval (0,eval)("f(n-1)"): script frame, native frame of eval, a fresh GLOBAL scope (3 scopes)
+       s = 1  f -> Function("return f(n-1)")(): script frame, frame of the made function (2)
+       s = 2  f -> host function -> Otto.Run("f(n-1)") re-entered from Go: script frame, native frame, global scope (3)
+       s = 3  f -> f.call(null, n-1): script frame, native frame of call (2)
+       s = 4  a getter that reads the next getter (1)
+       s = 5  valueOf that converts the next object (1)
+       s = 6  f -> [1].forEach(callback -> f): script frame, native frame, callback frame (3)
+       s = 7  f -> "a".replace(/a/, callback -> f) (3)
+   enterScope counts every scope, a global one entered while code is running
+   included, so the number of nested scopes is cyc s * (d - 1) + 1 (d >= 1).
+   Every step also reads the depth at rest afterwards (-1: no scope). *)
+Definition cyc (s : Z) : Z :=
+  if s =? 0 then 3 else if s =? 1 then 2 else if s =? 2 then 3 else if s =? 3 then 2
+  else if s =? 4 then 1 else if s =? 5 then 1 else 3.
+
+(* scopes nested below the global one *)
+Definition frames (k d : Z) : Z :=
+  if k <=? 4 then (if k =? 3 then d + 2 else d)
+  else if d <=? 0 then 0 else cyc ((k - 5) / 3) * (d - 1) + 1.
+
+Definition mode (k : Z) : Z :=
+  if k <=? 4 then (if k =? 2 then 1 else if k =? 4 then 2 else 0) else (k - 5) mod 3.
+
 Definition stack_step (L : Z) (op : Z * Z) : Z * list Z :=
   let '(k, d) := op in
-  let n := Z.to_nat d in
+  let f := frames k d in
+  let n := Z.to_nat f in
+  let m := mode k in
   if k =? 0 then (d, [0; -1])
-  else if k =? 1 then (L, [code_of (run L (nest n)); cur (run_chain L (nest n))])
-  else if k =? 2 then (L, [code_of (run L (Try (nest n) Ret)); cur (run_chain L (Try (nest n) Ret))])
-  else if k =? 3 then (L, [code_of (run L (nest (S (S n)))); cur (run_chain L (nest (S (S n))))])
-  else (L, [match run L (nest (S n)) with ARet => d + 1 | r => - code_of r end; cur (run_chain L (nest (S n)))]).
+  else if m =? 0 then (L, [code_of (run L (nest n)); cur (run_chain L (nest n))])
+  else if m =? 1 then (L, [code_of (run L (Try (nest n) Ret)); cur (run_chain L (Try (nest n) Ret))])
+  else (L, [match run L (nest (S n)) with ARet => f + 1 | r => - code_of r end; cur (run_chain L (nest (S n)))]).
 
 Fixpoint stack_hist (L : Z) (ops : list (Z * Z)) : list Z :=
   match ops with
@@ -285,15 +314,16 @@ Fixpoint stack_hist (L : Z) (ops : list (Z * Z)) : list Z :=
   end.
 
 (* ES5 has no stack limit; the property's own statement is the specification:
-   with limit L >= 1 exactly the nestings d >= L end in a RangeError *)
+   with limit L >= 1 exactly the nestings that reach L end in a RangeError *)
 Definition spec_step (L : Z) (op : Z * Z) : Z * list Z :=
   let '(k, d) := op in
+  let f := frames k d in
+  let m := mode k in
   let over (n : Z) := negb (L =? 0) && (L <=? n) in
   if k =? 0 then (d, [0; -1])
-  else if k =? 1 then (L, [if over d then RangeErr else 0; -1])
-  else if k =? 2 then (L, [0; -1])
-  else if k =? 3 then (L, [if over (d + 2) then RangeErr else 0; -1])
-  else (L, [if over (d + 1) then - RangeErr else d + 1; -1]).
+  else if m =? 0 then (L, [if over f then RangeErr else 0; -1])
+  else if m =? 1 then (L, [0; -1])
+  else (L, [if over (f + 1) then - RangeErr else f + 1; -1]).
 
 Fixpoint spec_hist (L : Z) (ops : list (Z * Z)) : list Z :=
   match ops with
